@@ -9,6 +9,8 @@ import JaqVerif.Lemmas.C01Frame
 namespace Jaq.Core
 open Jaq
 
+variable {pe : Bool}
+
 /-- the Machine with `cartesian` as the manual prescribes (see `MCfg`) -/
 def cfgF : MCfg := { cartDropsErr := false }
 
@@ -32,42 +34,27 @@ inductive All2 {α β : Type} (R : α → β → Prop) : List α → List β →
   | nil : All2 R [] []
   | cons {a b as bs} : R a b → All2 R as bs → All2 R (a :: as) (b :: bs)
 
-theorem compiledI_it {tabf : List CTerm} {loc : Locals} {tr : Tr} {t : Term} {st st3 : St} {k : Nat}
-    (hfr : inFragment t = true) (hlater : Ext (it cxMain loc tr t st).2.2 st3) (hk : k ≤ st.terms.length)
-    (hag : AgreeFrom k st3.terms tabf) : CompiledI tabf loc t (it cxMain loc tr t st).1 :=
-  compiledI_of_step (c := (term cxMain loc tr t (st.insert .id).2).1)
-    (tr' := (term cxMain loc tr t (st.insert .id).2).2.1) (st1 := (term cxMain loc tr t (st.insert .id).2).2.2)
-    rfl (term_ext hfr _ _ _ _) hlater hk hag
+theorem compiledI_it {pe : Bool} {tabf : List CTerm} {loc : Locals} {tr : Tr} {t : Term} {st st3 : St} {k : Nat}
+    (_hfr : inFragment pe t = true) (hlater : Ext (it (cxMain pe) loc tr t st).2.2 st3) (hk : k ≤ st.terms.length)
+    (hag : AgreeFrom k st3.terms tabf) : CompiledI pe tabf loc t (it (cxMain pe) loc tr t st).1 :=
+  compiledI_of_step (c := (term (cxMain pe) loc tr t (st.insert .id).2).1)
+    (tr' := (term (cxMain pe) loc tr t (st.insert .id).2).2.1) (st1 := (term (cxMain pe) loc tr t (st.insert .id).2).2.2)
+    rfl (term_ext _ _ _ _ _) hlater hk hag
 
-theorem it_ext' {loc tr t st} (hfr : inFragment t = true) : Ext st (it cxMain loc tr t st).2.2 :=
-  it_ext (fun st' => term_ext hfr _ _ _ st')
+theorem it_ext' {pe : Bool} {loc tr t st} (_hfr : inFragment pe t = true) : Ext st (it (cxMain pe) loc tr t st).2.2 :=
+  it_extA
 
-theorem itermList_ext {loc : Locals} : ∀ (as : List Term), inFragmentList as = true → ∀ st, Ext st (itermList cxMain loc as st).2 := by
-  intro as
-  induction as with
-  | nil => intro _ st; rw [itermList_nil]; exact Ext.refl _
-  | cons a as ih =>
-    intro hfr st
-    simp only [inFragmentList, Bool.and_eq_true] at hfr
-    rw [itermList_cons]
-    exact Ext.trans (it_ext' hfr.1) (ih hfr.2 _)
+theorem itermList_ext {pe : Bool} {loc : Locals} (as : List Term) (_h : inFragmentList pe as = true) (st : St) :
+    Ext st (itermList (cxMain pe) loc as st).2 := itermList_extA _ _ _ _
 
-theorem compileDefs_ext {tr : Tr} : ∀ (ds : List Def), inFragmentDefs ds = true → ∀ loc st, Ext st (compileDefs cxMain loc tr ds st).2 := by
-  intro ds
-  induction ds with
-  | nil => intro _ loc st; rw [compileDefs_nil]; exact Ext.refl _
-  | cons d ds ih =>
-    intro hfr loc st
-    obtain ⟨name, params, body⟩ := d
-    simp only [inFragmentDefs, Bool.and_eq_true] at hfr
-    rw [compileDefs_cons]
-    exact Ext.trans (Ext.set_hole _ .id (term_ext hfr.1 _ _ _ _)).1 (ih hfr.2 _ _)
+theorem compileDefs_ext {pe : Bool} {tr : Tr} (ds : List Def) (_h : inFragmentDefs pe ds = true) (loc : Locals) (st : St) :
+    Ext st (compileDefs (cxMain pe) loc tr ds st).2 := compileDefs_extA _ _ _ _ _
 
 /-- arguments of a call, compiled in order -/
 theorem itermList_spec {tabf : List CTerm} {loc : Locals} : ∀ (as : List Term) (st st3 : St) (k : Nat),
-    inFragmentList as = true → Ext (itermList cxMain loc as st).2 st3 → k ≤ st.terms.length →
+    inFragmentList pe as = true → Ext (itermList (cxMain pe) loc as st).2 st3 → k ≤ st.terms.length →
     AgreeFrom k st3.terms tabf →
-    All2 (fun a i => CompiledI tabf loc a i ∧ inFragment a = true) as (itermList cxMain loc as st).1 := by
+    All2 (fun a i => CompiledI pe tabf loc a i ∧ inFragment pe a = true) as (itermList (cxMain pe) loc as st).1 := by
   intro as
   induction as with
   | nil => intro st st3 k _ _ _ _; rw [itermList_nil]; exact All2.nil
@@ -80,9 +67,9 @@ theorem itermList_spec {tabf : List CTerm} {loc : Locals} : ∀ (as : List Term)
 
 /-- definitions of one `def … ; … ;` group extend the invariant -/
 theorem defs_rel {tabf : List CTerm} {tr : Tr} : ∀ (ds : List Def) (σ : Env) (loc : Locals) (e : MEnv) (st st3 : St) (k : Nat),
-    inFragmentDefs ds = true → Rel tabf σ loc e → Ext (compileDefs cxMain loc tr ds st).2 st3 →
+    inFragmentDefs pe ds = true → Rel pe tabf σ loc e → Ext (compileDefs (cxMain pe) loc tr ds st).2 st3 →
     k ≤ st.terms.length → AgreeFrom k st3.terms tabf →
-    Rel tabf (ds.foldl (fun ρ d => .defn d ρ :: ρ) σ) (compileDefs cxMain loc tr ds st).1 e := by
+    Rel pe tabf (ds.foldl (fun ρ d => .defn d ρ :: ρ) σ) (compileDefs (cxMain pe) loc tr ds st).1 e := by
   intro ds
   induction ds with
   | nil => intro σ loc e st st3 k _ hrel _ _ _; rw [compileDefs_nil]; exact hrel
@@ -92,14 +79,16 @@ theorem defs_rel {tabf : List CTerm} {tr : Tr} : ∀ (ds : List Def) (σ : Env) 
     simp only [inFragmentDefs, Bool.and_eq_true] at hfr
     rw [compileDefs_cons] at hl ⊢
     simp only [List.foldl_cons]
-    have hdef : DefOK tabf (.mk name params body) loc st.terms.length := by
-      refine ⟨?_, hfr.1⟩
-      exact compiledI_of_step (c := (term cxMain _ _ body (st.insert .id).2).1)
-        (tr' := (term cxMain _ _ body (st.insert .id).2).2.1) (st1 := (term cxMain _ _ body (st.insert .id).2).2.2)
-        rfl (term_ext hfr.1 _ _ _ _) (Ext.trans (compileDefs_ext ds hfr.2 _ _) hl) hk hag
-    refine ih _ _ e _ st3 k hfr.2 (Rel.sib (d := .mk name params body) hrel hdef) hl ?_ hag
+    have hname : name ≠ emptyName := by simpa using hfr.1.1.1
+    have hparams : ∀ p ∈ params, p ≠ emptyName := by simpa using hfr.1.1.2
+    have hdef : DefOK pe tabf (.mk name params body) loc st.terms.length := by
+      refine ⟨?_, hfr.1.2, hparams⟩
+      exact compiledI_of_step (c := (term (cxMain pe) _ _ body (st.insert .id).2).1)
+        (tr' := (term (cxMain pe) _ _ body (st.insert .id).2).2.1) (st1 := (term (cxMain pe) _ _ body (st.insert .id).2).2.2)
+        rfl (term_ext _ _ _ _ _) (Ext.trans (compileDefs_ext ds hfr.2 _ _) hl) hk hag
+    refine ih _ _ e _ st3 k hfr.2 (Rel.sib (d := .mk name params body) hrel hdef hname) hl ?_ hag
     rw [St.set_terms_len]
-    exact Nat.le_trans hk (Nat.le_trans (Ext.insert st .id).len (term_ext hfr.1 _ _ _ _).len)
+    exact Nat.le_trans hk (Nat.le_trans (Ext.insert st .id).len (term_ext _ _ _ _ _).len)
 
 /-! ### binding the arguments of a call -/
 
@@ -108,20 +97,21 @@ def pushParams (l : Locals) (sig : List (ArgK String)) : Locals :=
   sig.foldl (fun l a => match a with | .var v => l.pushBind (.var v) | .fn f => l.pushArg f) l
 
 theorem args_sim {tabf : List CTerm} (n L : Nat) (σ : Env) (loc : Locals) (e : MEnv) (v : Val)
-    (hrel : Rel tabf σ loc e) (loc0 : Locals) (e0 : MEnv) (k : Env → Out) (k' : Nat → MEnv → Out)
-    (ihI : ∀ (t : Term) (id : TermId), inFragment t = true → CompiledI tabf loc t id →
+    (hrel : Rel pe tabf σ loc e) (loc0 : Locals) (e0 : MEnv) (k : Env → Out) (k' : Nat → MEnv → Out)
+    (ihI : ∀ (t : Term) (id : TermId), inFragment pe t = true → CompiledI pe tabf loc t id →
       ∃ m, ∀ m' ≥ m, Pre (eval n L σ t v) (run cfgF tabf m' L e id v)) :
     ∀ (ps : List String) (as : List Term) (ids : List TermId) (ρa : Env) (la : Locals) (ea : MEnv),
-    All2 (fun a i => CompiledI tabf loc a i ∧ inFragment a = true) as ids → as.length = ps.length →
-    Rel tabf ρa la ea → loc0.total ≤ la.total → ea.drop (la.total - loc0.total) = e0 →
-    (∀ ρb eb, Rel tabf ρb (pushParams la (sigOf ps)) eb → loc0.total ≤ (pushParams la (sigOf ps)).total →
+    (∀ p ∈ ps, p ≠ emptyName) →
+    All2 (fun a i => CompiledI pe tabf loc a i ∧ inFragment pe a = true) as ids → as.length = ps.length →
+    Rel pe tabf ρa la ea → loc0.total ≤ la.total → ea.drop (la.total - loc0.total) = e0 →
+    (∀ ρb eb, Rel pe tabf ρb (pushParams la (sigOf ps)) eb → loc0.total ≤ (pushParams la (sigOf ps)).total →
       eb.drop ((pushParams la (sigOf ps)).total - loc0.total) = e0 → ∃ m, ∀ m' ≥ m, Pre (k ρb) (k' m' eb)) →
     ∃ m, ∀ m' ≥ m, Pre (bindArgs (eval n L σ) σ v k ps as ρa)
       (bindVars (run cfgF tabf m' L e) e v (k' m') (Locals.binds (sigOf ps) ids) ea) := by
   intro ps
   induction ps with
   | nil =>
-    intro as ids ρa la ea hall hlen hra hle hdrop hk
+    intro as ids ρa la ea hps hall hlen hra hle hdrop hk
     cases as with
     | cons _ _ => simp at hlen
     | nil =>
@@ -132,7 +122,7 @@ theorem args_sim {tabf : List CTerm} (n L : Nat) (σ : Env) (loc : Locals) (e : 
       simp only [bindArgs, sigOf, List.map_nil, Locals.binds, List.zip_nil_left, bindVars]
       exact hm m' hm'
   | cons p ps ih =>
-    intro as ids ρa la ea hall hlen hra hle hdrop hk
+    intro as ids ρa la ea hps hall hlen hra hle hdrop hk
     cases as with
     | nil => simp at hlen
     | cons a as =>
@@ -146,7 +136,7 @@ theorem args_sim {tabf : List CTerm} (n L : Nat) (σ : Env) (loc : Locals) (e : 
           have hstep : ∀ w, ∃ m, ∀ m' ≥ m, Pre (bindArgs (eval n L σ) σ v k ps as (.var p w :: ρa))
               (bindVars (run cfgF tabf m' L e) e v (k' m') (Locals.binds (sigOf ps) ids') (.val w :: ea)) := by
             intro w
-            refine ih as ids' _ (la.pushBind (.var p)) _ hrest hlen (Rel.v hra) (by simp [Locals.pushBind]; omega) ?_ ?_
+            refine ih as ids' _ (la.pushBind (.var p)) _ (fun q hq => hps q (by simp [hq])) hrest hlen (Rel.v hra) (by simp [Locals.pushBind]; omega) ?_ ?_
             · have : (la.pushBind (.var p)).total - loc0.total = (la.total - loc0.total) + 1 := by
                 simp [Locals.pushBind]; omega
               rw [this]; simpa using hdrop
@@ -162,8 +152,9 @@ theorem args_sim {tabf : List CTerm} (n L : Nat) (σ : Env) (loc : Locals) (e : 
           exact pre_bind' (h1 m' (by omega)) (h2 m' (by omega))
         · -- filter parameter: a closure over the caller's scope / environment
           have hsig : sigOf (p :: ps) = .fn p :: sigOf ps := by simp [sigOf, hv]
-          obtain ⟨m, hm⟩ := ih as ids' (.arg p a σ :: ρa) (la.pushArg p) (.fn i e :: ea) hrest hlen
-            (Rel.a hra hrel hai) (by simp [Locals.pushArg, Locals.pushBind]; omega)
+          obtain ⟨m, hm⟩ := ih as ids' (.arg p a σ :: ρa) (la.pushArg p) (.fn i e :: ea)
+            (fun q hq => hps q (by simp [hq])) hrest hlen
+            (Rel.a hra hrel hai (hps p (by simp))) (by simp [Locals.pushArg, Locals.pushBind]; omega)
             (by
               have : (la.pushArg p).total - loc0.total = (la.total - loc0.total) + 1 := by
                 simp [Locals.pushArg, Locals.pushBind]; omega
@@ -180,54 +171,53 @@ theorem args_sim {tabf : List CTerm} (n L : Nat) (σ : Env) (loc : Locals) (e : 
 /-! ### `reduce` / `foreach` over the outputs of `xs` -/
 
 theorem fold_sim (upd : Env → Val → Out) (proj : Env → Val → Out) (upd' proj' : Nat → MEnv → Val → Out) (isR : Bool)
-    (g : Val → Env) (g' : Val → MEnv) :
-    ∀ (ws : List Val) (s : Stop),
-    (∀ w ∈ ws, ∀ acc, ∃ m, ∀ m' ≥ m, Pre (upd (g w) acc) (upd' m' (g' w) acc)) →
-    (∀ w ∈ ws, ∀ acc, ∃ m, ∀ m' ≥ m, Pre (proj (g w) acc) (proj' m' (g' w) acc)) →
-    ∀ acc, ∃ m, ∀ m' ≥ m, ∀ (ws' : List Val) (s' : Stop), Pre (⟨ws, s⟩ : Out) ⟨ws', s'⟩ →
-      Pre (foldSem upd proj isR (ws.map g) s acc) (foldM (upd' m') (proj' m') isR (ws'.map g') s' acc) := by
-  intro ws
-  induction ws with
+    (h : Env → MEnv) :
+    ∀ (ρs : List Env) (s : Stop),
+    (∀ ρx ∈ ρs, ∀ acc, ∃ m, ∀ m' ≥ m, Pre (upd ρx acc) (upd' m' (h ρx) acc)) →
+    (∀ ρx ∈ ρs, ∀ acc, ∃ m, ∀ m' ≥ m, Pre (proj ρx acc) (proj' m' (h ρx) acc)) →
+    ∀ acc, ∃ m, ∀ m' ≥ m, ∀ (es' : List MEnv) (s' : Stop), Pre (⟨ρs.map h, s⟩ : OutG MEnv) ⟨es', s'⟩ →
+      Pre (foldSem upd proj isR ρs s acc) (foldM (upd' m') (proj' m') isR es' s' acc) := by
+  intro ρs
+  induction ρs with
   | nil =>
     intro s _ _ acc
-    refine ⟨0, fun m' _ ws' s' hp => ?_⟩
+    refine ⟨0, fun m' _ es' s' hp => ?_⟩
     by_cases hs : s = .fuel
     · subst hs
-      simp only [List.map_nil, foldSem]
+      simp only [foldSem]
       exact Pre.of_fuel rfl _ (List.nil_append _).symm
     · have := hp.1 hs
-      simp only [OutG.mk.injEq] at this
+      simp only [List.map_nil, OutG.mk.injEq] at this
       obtain ⟨rfl, rfl⟩ := this
-      simp only [List.map_nil]
       cases s' <;> simp only [foldSem, foldM] <;> exact Pre.rfl' _
-  | cons w ws ih =>
+  | cons ρx ρs ih =>
     intro s hu hpj acc
-    obtain ⟨m1, h1⟩ := hu w (by simp) acc
+    obtain ⟨m1, h1⟩ := hu ρx (by simp) acc
     have hrest := ih s (fun w hw => hu w (by simp [hw])) (fun w hw => hpj w (by simp [hw]))
-    obtain ⟨m2, h2⟩ := uniform_fuel (P := fun m' y => ∀ (wt' : List Val) (s' : Stop), Pre (⟨ws, s⟩ : Out) ⟨wt', s'⟩ →
-        Pre (foldSem upd proj isR (ws.map g) s y) (foldM (upd' m') (proj' m') isR (wt'.map g') s' y))
-      (upd (g w) acc).vals (fun y _ => hrest y)
-    obtain ⟨m3, h3⟩ := uniform_fuel (P := fun m' y => Pre (proj (g w) y) (proj' m' (g' w) y))
-        (upd (g w) acc).vals (fun y _ => hpj w (by simp) y)
-    refine ⟨max m1 (max m2 m3), fun m' hm' ws' s' hp => ?_⟩
+    obtain ⟨m2, h2⟩ := uniform_fuel (P := fun m' y => ∀ (et' : List MEnv) (s' : Stop), Pre (⟨ρs.map h, s⟩ : OutG MEnv) ⟨et', s'⟩ →
+        Pre (foldSem upd proj isR ρs s y) (foldM (upd' m') (proj' m') isR et' s' y))
+      (upd ρx acc).vals (fun y _ => hrest y)
+    obtain ⟨m3, h3⟩ := uniform_fuel (P := fun m' y => Pre (proj ρx y) (proj' m' (h ρx) y))
+        (upd ρx acc).vals (fun y _ => hpj ρx (by simp) y)
+    refine ⟨max m1 (max m2 m3), fun m' hm' es' s' hp => ?_⟩
     obtain ⟨r, hr⟩ := Pre.vals_prefix hp
     simp only at hr
-    cases ws' with
+    cases es' with
     | nil => simp at hr
-    | cons w' wt' =>
-      simp only [List.cons_append, List.cons.injEq] at hr
+    | cons e' et' =>
+      simp only [List.map_cons, List.cons_append, List.cons.injEq] at hr
       obtain ⟨rfl, hvt⟩ := hr
-      have hp' : Pre (⟨ws, s⟩ : Out) ⟨wt', s'⟩ := by
-        refine ⟨fun h => ?_, fun _ => ⟨r, hvt⟩⟩
-        have := hp.1 h
-        simp only [OutG.mk.injEq, List.cons.injEq, true_and] at this
+      have hp' : Pre (⟨ρs.map h, s⟩ : OutG MEnv) ⟨et', s'⟩ := by
+        refine ⟨fun hne => ?_, fun _ => ⟨r, hvt⟩⟩
+        have := hp.1 hne
+        simp only [List.map_cons, OutG.mk.injEq, List.cons.injEq, true_and] at this
         simp [this]
-      simp only [List.map_cons, foldSem, foldM]
+      simp only [foldSem, foldM]
       refine pre_bind' (h1 m' (by omega)) (fun y hy => ?_)
       cases isR with
-      | true => simpa using h2 m' (by omega) y hy wt' s' hp'
+      | true => simpa using h2 m' (by omega) y hy et' s' hp'
       | false =>
         simp only [Bool.false_eq_true, if_false]
-        exact pre_append (h3 m' (by omega) y hy) (h2 m' (by omega) y hy wt' s' hp')
+        exact pre_append (h3 m' (by omega) y hy) (h2 m' (by omega) y hy et' s' hp')
 
 end Jaq.Core
